@@ -50,6 +50,10 @@ type DialScenario struct {
 	// DefaultTLS: the Client is given no TLS configuration: go-mail's default one applies (server name = host)
 	DefaultTLS bool `json:"default_tls,omitempty"`
 	TLS12     bool              `json:"tls12,omitempty"`      // the server only speaks TLS 1.2
+	// UseSSL: implicit TLS is switched on (WithSSL / SetSSL) although the connection comes from a custom dial
+	// function, which here returns the scripted connection as it is (no TLS): the library skips STARTTLS and must
+	// treat the connection as what it is - unencrypted
+	UseSSL bool `json:"use_ssl,omitempty"`
 	sasl      *saslServer
 	Timeout   time.Duration     `json:"-"`
 	dynamic   func(pos int, verb, line string) (SrvAction, bool)
@@ -254,6 +258,13 @@ func RunDial(sc *DialScenario) *DialRun {
 	default:
 		opts = append(opts, mail.WithTLSPolicy(pol))
 	}
+	if sc.UseSSL {
+		if pick() {
+			later = append(later, func(c *mail.Client) { c.SetSSL(true) })
+		} else {
+			opts = append(opts, mail.WithSSL())
+		}
+	}
 	if sc.DefaultTLS {
 		// nothing: the default configuration of NewClient
 	} else if pick() {
@@ -447,7 +458,7 @@ func (sc *DialScenario) modelLine(run *DialRun) string {
 	if helo == "" {
 		helo = defaultHelo()
 	}
-	toks := []string{"smtp", "dial", encLS(sc.Caps), encLS(acts), encS(helo), encS(sc.Host), encN(sc.Policy), "#0", "#0",
+	toks := []string{"smtp", "dial", encLS(sc.Caps), encLS(acts), encS(helo), encS(sc.Host), encN(sc.Policy), "#0", encBool(sc.UseSSL),
 		encS(sc.AuthType), encS(sc.User), encS(sc.Pass), encBool(sc.Debug), encBool(sc.LogAuth),
 		su, sp, encLS(run.ScramNonces), encBool(run.TLSState != nil && run.TLSState.Version >= tls.VersionTLS13), cbTokens(run), encLS(crypto), encLS(hm), encBool(sc.ThenReset)}
 	return strings.Join(toks, " ")
@@ -535,6 +546,10 @@ func directAuth(sc *DialScenario) smtp.Auth {
 		return smtp.XOAuth2Auth(sc.User, sc.Pass)
 	case "SCRAM-SHA-1":
 		return smtp.ScramSHA1Auth(sc.User, sc.Pass)
+	case "SCRAM-SHA-1-PLUS":
+		return smtp.ScramSHA1PlusAuth(sc.User, sc.Pass, &tls.ConnectionState{Version: tls.VersionTLS12, TLSUnique: []byte("tls-unique-of-the-callers-making")})
+	case "SCRAM-SHA-256-PLUS":
+		return smtp.ScramSHA256PlusAuth(sc.User, sc.Pass, &tls.ConnectionState{Version: tls.VersionTLS12, TLSUnique: []byte("tls-unique-of-the-callers-making")})
 	}
 	return smtp.ScramSHA256Auth(sc.User, sc.Pass)
 }
